@@ -788,7 +788,8 @@ def addSuperClasses : Nat → Nat → Nat → M (Val × Option Sig)
     for (k, v) in tkvs do
       match v with
       | .func id =>
-        let fr := (← get).funcs.getD id default
+        -- a function value always denotes an entry of the table (a dangling id is outside the model, not a Go panic)
+        let fr ← (match (← get).funcs[id]? with | some fr => pure fr | none => throw (Sig.unsupported "dangling function id"))
         let isInit := keyEq k (.str (str "init"))
         let sup ← (if isInit && !initSuper.isEmpty then do pure (some (← newListLit initSuper)) else pure none)
         let s ← get
@@ -1299,7 +1300,8 @@ def runBuiltin : Nat → Nat → Node → String → List Val → M Val
 def runFunction : Nat → Nat → Nat → List Val → M Val
   | 0, _, _, _ => throw Sig.fuel
   | f+1, callerSc, id, args => do
-    let fr := (← get).funcs.getD id default
+    -- a function value always denotes an entry of the table (a dangling id is outside the model, not a Go panic)
+    let fr ← (match (← get).funcs[id]? with | some fr => pure fr | none => throw (Sig.unsupported "dangling function id"))
     let decl := fr.decl
     let c0 ← child decl 0
     let off := if c0.name == "identifier" then 1 else 0
